@@ -596,6 +596,10 @@ var regexps = []string{
 	`[a-z]+`, `\d{2,4}-\d{2}`, `(foo|bar)*baz`, `(?i)abc[x-z]?`, `^\w+@\w+\.com$`, `[^a-z]{0,3}`, `.`, `(?s).{0,4}x`,
 	`\pL{1,3}`, `a{3}`, `[[:alpha:]][[:digit:]]*`, ``, `\b\w+\b`, `[\x00-\x1f]{2}`, `(a|b|c){2,5}`, `[😀-😏]{1,2}`,
 	`x*y+z?`, `(?m)^ab$`, `[^\n]{1,3}`, `(?i)[k-m]{2}`, `\PL`, `[а-яё]{0,6}`, `(ab){0,3}c{0,2}`, `\w\W\s\S\d\D`, `a\z`, `\Aa`,
+	// long unicode classes sharing a long common prefix; the same class text under different case-folding flags;
+	// patterns whose generated candidates are often rejected by the match re-check
+	`\p{Lu}+`, `[\p{Lu}\p{Lt}]{1,6}`, `\p{Greek}{1,4}`, `[\p{Greek}\p{Cyrillic}]{1,4}`, `(?i)[a-c]{1,4}`, `[A-Ca-c]{1,4}`,
+	`\bid\b.`, `[a-z]+ ?\B[.]`, `\B.\B`, `\b\w{1,3}\b\W?`,
 }
 
 // gxSalt, when set, makes every regexp pattern text unique to the current round (the regexp caches are process wide).
@@ -798,8 +802,29 @@ func checkMade(v reflect.Value, depth int) string {
 	return ""
 }
 
+// Two distinct types with the same name (declared in different scopes): Make must give each its own type.
+func mkLocalA() *GX {
+	type record struct {
+		A int8
+		B bool
+	}
+	return mkGX[record]("record(scope A)")
+}
+
+func mkLocalB() *GX {
+	type record struct {
+		Name string
+		N    []uint16
+	}
+	return mkGX[record]("record(scope B)")
+}
+
 func gxMake(r *rng) *GX {
-	switch r.intn(10) {
+	switch r.intn(12) {
+	case 10:
+		return mkLocalA()
+	case 11:
+		return mkLocalB()
 	case 0:
 		return mkGX[mkNamedInt]("mkNamedInt")
 	case 1:
